@@ -119,6 +119,10 @@ def _bind_parameters(v, values):
         if v.dtype == object:
             for idx in np.ndindex(v.shape):
                 populated_array[idx] = _bind_parameters(v[idx], values)
+
+            if not any(isinstance(i, sym.Expr) for i in populated_array.flat):
+                # no parameters are left: the array is numeric again
+                populated_array = np.array(populated_array.tolist())
         return populated_array
 
     return v
